@@ -81,9 +81,8 @@ inductive DefKind
   | enum (cases : List Member)
   | option (t : Ty)
   | result (ok err : Option Ty)
-  | self (t : Ty)       -- list / map / fixed-length list: `type_alias(id, name, &Type::Id(id))`
+  | self (t : Ty)       -- list / map / fixed-length list / future / stream: `type_alias(id, name, &Type::Id(id))`
   | alias (t : Ty)      -- `TypeDefKind::Type(t)`
-  | future | stream     -- `type_future` / `type_stream`: `todo!()`
   | handle              -- core `define_type`: panic "handle types do not require definition"
   | unknown
 
@@ -135,8 +134,10 @@ def anchor (x : Str) : Str := s "<a id=\"" ++ x ++ s "\"></a>"
 def docsOps (d : Option Str) : List Op :=
   (lines (d.getD ['\n'])).flatMap fun l => [.lit (trim l), .str ['\n']]
 
+def natStr (n : Nat) : Str := (toString n).toList
+
 mutual
-/-- `print_ty` (lib.rs:327-449) -/
+/-- `print_ty` (lib.rs:327-453) -/
 def printTy : Ty → List Op
   | .prim n => [.str (['`'] ++ n ++ ['`'])]
   | .ref n => [.str (s "[`"), .str n, .str (s "`](#"), .str (snake n), .str (s ")")]
@@ -148,7 +149,7 @@ def printTy : Ty → List Op
   | .resultOk a => [.str (s "result<")] ++ printTy a ++ [.str (s ">")]
   | .result0 => [.str (s "result")]
   | .list t => [.str (s "list<")] ++ printTy t ++ [.str (s ">")]
-  | .flist _ _ => [.panic (s "not yet implemented")]          -- `FixedLengthList(..) => todo!()`
+  | .flist n t => [.str (s "list<")] ++ printTy t ++ [.str (s ", " ++ natStr n ++ s ">")]
   | .map k v => [.str (s "map<")] ++ printTy k ++ [.str (s ", ")] ++ printTy v ++ [.str (s ">")]
   | .future1 t => [.str (s "future<")] ++ printTy t ++ [.str (s ">")]
   | .future0 => [.str (s "future")]
@@ -163,8 +164,6 @@ def printTys : Bool → Tys → List Op
   | _, .nil => []
   | first, .cons t ts => (if first then [] else [.str (s ", ")]) ++ printTy t ++ printTys false ts
 end
-
-def natStr (n : Nat) : Str := (toString n).toList
 
 /-- `print_type_header`; the flag is `types_header_printed` -/
 def typeHeader (printed : Bool) (kind name : Str) : List Op :=
@@ -240,8 +239,6 @@ def defineType (printed : Bool) (t : TypeDef) : List Op × Bool :=
     (typeHeader printed (s "type") n ++ resultTy a b ++ [.str ['\n']] ++ docsOps t.docs, true)
   | .self ty => (aliasOps printed n ty t.docs, true)
   | .alias ty => (aliasOps printed n ty t.docs, true)
-  | .future => ([.panic (s "not yet implemented")], printed)
-  | .stream => ([.panic (s "not yet implemented")], printed)
   | .handle => ([.panic (s "handle types do not require definition")], printed)
   | .unknown => ([.panic (s "internal error: entered unreachable code")], printed)
 
